@@ -57,6 +57,80 @@ def _self_reads(ctx: Ctx, cls: ClassInfo, fn: FuncInfo, seen: Optional[Set[str]]
     return out
 
 
+def return_slices(ctx: Ctx, cls: ClassInfo, fn: FuncInfo, depth: int = 0) -> List[Set[str]]:
+    """For every `return` of fn: the fields of self whose value flows into the
+    returned text (through locals, list building and self.<helper>() calls) or
+    decides which text is returned.  Sub-attributes are kept (`slice.step`)."""
+    assigns: Dict[str, List[ast.AST]] = {}
+    for n in ast.walk(fn.node):
+        if isinstance(n, ast.Assign):
+            for t in n.targets:
+                for x in ast.walk(t):
+                    if isinstance(x, ast.Name):
+                        assigns.setdefault(x.id, []).append(n.value)
+        elif isinstance(n, ast.AnnAssign) and n.value is not None and isinstance(n.target, ast.Name):
+            assigns.setdefault(n.target.id, []).append(n.value)
+        elif isinstance(n, ast.AugAssign) and isinstance(n.target, ast.Name):
+            assigns.setdefault(n.target.id, []).append(n.value)
+        elif isinstance(n, (ast.For, ast.comprehension)):
+            for x in ast.walk(n.target):
+                if isinstance(x, ast.Name):
+                    assigns.setdefault(x.id, []).append(n.iter)
+        elif isinstance(n, ast.Call) and isinstance(n.func, ast.Attribute) and n.func.attr in ("append", "extend", "insert") and isinstance(n.func.value, ast.Name):
+            extra: List[ast.AST] = list(n.args)
+            for t, _b in path_conditions(fn.node, n):
+                extra.append(t)
+            # enclosing loops drive what is appended
+            from sa.flow import parent_map
+
+            parents = parent_map(fn.node)
+            cur: Optional[ast.AST] = n
+            while cur is not None:
+                cur = parents.get(id(cur))
+                if isinstance(cur, ast.For):
+                    extra.append(cur.iter)
+            assigns.setdefault(n.func.value.id, []).extend(extra)
+    out: List[Set[str]] = []
+    for r in [x for x in ast.walk(fn.node) if isinstance(x, ast.Return) and x.value is not None]:
+        fields: Set[str] = set()
+        seen: Set[str] = set()
+        work: List[ast.AST] = [r.value] + [t for t, _b in path_conditions(fn.node, r)]
+        while work:
+            e = work.pop()
+            for x in ast.walk(e):
+                if isinstance(x, ast.Attribute):
+                    p = path_of(x)
+                    if p and p.startswith("self.") and isinstance(x.ctx, ast.Load):
+                        parts = p.split(".")
+                        m = ctx.repo.find_method(cls, parts[1])
+                        if m is not None and depth < 2 and m is not fn:
+                            for sl in return_slices(ctx, cls, m, depth + 1):
+                                fields |= sl
+                        else:
+                            fields.add(parts[1])
+                            fields.add(".".join(parts[1:]))
+                elif isinstance(x, ast.Name) and x.id not in seen and x.id in assigns:
+                    seen.add(x.id)
+                    work.extend(assigns[x.id])
+        out.append(fields)
+    return out
+
+
+def printed_fields(ctx: Ctx, cls: ClassInfo, fn: FuncInfo) -> Set[str]:
+    """Fields that reach the text on *every* return path."""
+    slices = return_slices(ctx, cls, fn)
+    if not slices:
+        return set()
+    common = set(slices[0])
+    for s_ in slices[1:]:
+        common &= s_
+    return common
+
+
+# components of built-in values that a printer may read one by one
+COMPONENTS = {"slice": ("start", "stop", "step")}
+
+
 def _init_fields(ctx: Ctx, cls: ClassInfo) -> Dict[str, ast.expr]:
     out: Dict[str, ast.expr] = {}
     for q in reversed(ctx.repo.mro(cls)):
@@ -112,6 +186,14 @@ def _derived(field: str, fields: Dict[str, ast.expr], printed: Set[str]) -> bool
     return mentioned
 
 
+def _parent_of(root: ast.AST, node: ast.AST) -> Optional[ast.AST]:
+    for n in ast.walk(root):
+        for c in ast.iter_child_nodes(n):
+            if c is node:
+                return n
+    return None
+
+
 def printable_classes(ctx: Ctx) -> List[ClassInfo]:
     out: List[ClassInfo] = []
     for base in ("JSONPathSelector", "FilterExpression"):
@@ -149,13 +231,8 @@ def r10_1(ctx: Ctx) -> RuleResult:
         read: Set[str] = set()
         for m in evals:
             read |= _self_reads(ctx, cls, m)
-        printed = _self_reads(ctx, cls, s)
-        # filter nodes are also printed by BooleanExpression._canonical_string via `expression.<field>`
-        canon = ctx.repo.get_func("BooleanExpression._canonical_string")
-        if canon is not None and ctx.repo.is_subclass(cls.qualname, "FilterExpression"):
-            for n in ast.walk(canon.node):
-                if isinstance(n, ast.Attribute) and isinstance(n.value, ast.Name) and n.value.id == "expression":
-                    pass
+        printed_all = printed_fields(ctx, cls, s)
+        printed = {f for f in printed_all if "." not in f}
         fields = _init_fields(ctx, cls)
         missing = []
         for f in sorted(read - printed - IGNORED_FIELDS):
@@ -164,6 +241,23 @@ def r10_1(ctx: Ctx) -> RuleResult:
             if _derived(f, fields, printed):
                 continue
             missing.append(f)
+        # a built-in value printed component by component must show every component
+        for f in sorted(read & printed):
+            t = ctx.callgraph.types.field_type(cls, f)
+            comps = None
+            if t is not None:
+                for n_ in t.names:
+                    comps = COMPONENTS.get(n_, comps)
+            if comps:
+                whole = any(
+                    isinstance(x, ast.Attribute) and path_of(x) == f"self.{f}" and not isinstance(
+                        _parent_of(s.node, x), ast.Attribute)
+                    for x in ast.walk(s.node)
+                )
+                if not whole:
+                    lacking = [c for c in comps if f"{f}.{c}" not in printed_all]
+                    if lacking:
+                        missing.append(f"{f}.{lacking[0]}")
         if missing:
             rr.bad(s, s.node, f"{cls.name}: evaluation depends on field(s) {missing} that the string form never "
                    "mentions, so the printed query recompiles to a different query",
